@@ -452,16 +452,24 @@ func runC15(rep *Report, r *Rng, tier string) {
 				}
 				closed := make(chan struct{})
 				go func() { defer close(closed); idx.Close() }()
-				time.Sleep(200 * time.Millisecond)
-				close(gate.hold) // the query may finish now
-				res := "ok"
+				res, s := "ok", ""
 				select {
 				case <-closed:
-				case <-time.After(20 * time.Second * watchdogScale):
-					res = "hang"
+					// Close returned although the query is still being held: then the file must be free NOW
+					s = releasedProbe(path)
+					close(gate.hold)
+				case <-time.After(300 * time.Millisecond):
+					close(gate.hold) // Close waits for the query: let it finish
+					select {
+					case <-closed:
+					case <-time.After(20 * time.Second * watchdogScale):
+						res = "hang"
+					}
 				}
 				<-qdone
-				s := releasedProbe(path)
+				if s == "" {
+					s = releasedProbe(path)
+				}
 				rep.Eval("release-inflight", true)
 				rep.Count("close-with-query-in-flight")
 				if res != "ok" || s != "released" {
